@@ -87,7 +87,10 @@ def run(P, rep, tier):
                        '(R17.13: C10 R10.3 and the guard recogniser re-issued), and the parser\'s identifier/tag tables are per-scope dictionaries (R17.14: def-use facts over parse.c - '
                        'which scope a table expression denotes, which locals hold the answer of a chain walk, stores through them - plus C03 R03.5 re-issued). Round 7: the key a writer of a memo table passes is the string its reader looks up '
                        '(R17.15: def-use origins of every key of a static table not keyed by token spelling; a record field carries the reader\'s key only if every store to it in the program stores that key - File.name does, File.display_name is rewritten by #line), '
-                       'and every string that reaches the key of an insertion into the macro table is an identifier literal or the spelling of a token tested to be TK_IDENT (R17.16).')
+                       'and every string that reaches the key of an insertion into the macro table is an identifier literal or the spelling of a token tested to be TK_IDENT (R17.16). '
+                       'Round 9: a key function of a memo table derives the identity of the file open() reads - symlink-following query on its own parameter, record read only after success, (st_dev, st_ino) complete, full width, separated (R17.19); '
+                       'a declaration is a write to the current scope\'s dictionary on EVERY path of the declaring function - structured must-analysis from each declarator() to the return / next declarator / scope change, excused only by '
+                       '"lookup hit and the current scope has no enclosing scope" (R17.20); the macro name of #define/#undef/#ifdef/#ifndef is a token of the directive\'s own line (R17.21: dispatcher explored on a directive name followed by a newline).')
     rep.assumptions += ['calloc succeeds', 'probe loops are analysed for 0..3 generic iterations; the facts checked are per-iteration facts',
                         'command-line words other than the -D/-U option word are arbitrary strings; the word after a detached -D/-U exists (the pre-scan of parse_args rejects the line otherwise)',
                         'fnv_hash is a pure function of the key bytes',
